@@ -134,9 +134,20 @@ let gen_file r ~(maxpages : int) ~(want : int) : byte list * stored_role list * 
   (enc_file blocks tl, List.concat_map stored_of pages, Printf.sprintf "mode%d" mode)
 
 (* ---------- the functions under test ---------- *)
+let prev_file : (byte list * string * string) option ref = ref None
+let hold_ctr = ref 0
 let run_parse ~tag ~s (file : byte list) (tail : byte list) =
   let m = c_res c_auths (parsePGAuthID { vis = file; tail }) in
-  emit ~fn:"ParsePGAuthID" ~tag ~s ~m [ hexf file; hexf tail ]
+  emit ~fn:"ParsePGAuthID" ~tag ~s ~m [ hexf file; hexf tail ];
+  (* every fifth well-formed file is also parsed right after the previous one, both results looked at afterwards *)
+  if s <> "-" && List.length file <= 3 * 8192 then begin
+    incr hold_ctr;
+    (match !prev_file with
+     | Some (f0, s0, m0) when !hold_ctr mod 5 = 0 ->
+       emit ~fn:"ParsePGAuthIDHold" ~tag:"hold_first_result" ~s:(s0 ^ ";" ^ s) ~m:(m0 ^ ";" ^ m) [ hexf f0; hexf file ]
+     | _ -> ());
+    prev_file := Some (file, s, m)
+  end
 
 let eqb (a : byte list) (b : byte list) = (a = b)
 let reader_of (present : bool) (file : byte list) (decoy : byte list) (path : byte list) : gslice option =
